@@ -360,9 +360,7 @@ func newSyncEnv(chain *vh.Chain, tip0 uint64, delta time.Duration, storeOpts []s
 	if err != nil {
 		return nil, err
 	}
-	ctx, cancel := vctx(time.Hour)
-	defer cancel()
-	if err := st.Start(ctx); err != nil {
+	if err := startScoped(st.Start); err != nil {
 		return nil, err
 	}
 	e.st = st
@@ -380,7 +378,7 @@ func (e *syncEnv) startSyncer(ctx context.Context) error {
 		return err
 	}
 	e.syncer = s
-	return s.Start(ctx)
+	return startScopedIn(ctx, s.Start)
 }
 
 func (e *syncEnv) stop() {
